@@ -135,6 +135,12 @@ class Registry:
         return con
 
     def contract_for(self, qual, recv_cls=None):
+        if isinstance(recv_cls, str) and recv_cls.startswith('ctx:'):
+            # the variant of a contract that is written for a verification context (e.g. 'ctx:exact')
+            for c in self.contracts.get(qual, []):
+                if getattr(c, 'only_in', None) == recv_cls[4:]:
+                    return c
+            return None
         cands = [c for c in self.contracts.get(qual, []) if getattr(c, 'only_in', None) in (None, self.context)]
         for c in cands:                         # oracles written for the function under verification come first
             if self.context is not None and getattr(c, 'only_in', None) == self.context:
